@@ -136,6 +136,10 @@ pub enum Mutation {
     Drop,
     /// message is sent twice
     Duplicate,
+    /// (receive side) the receiver is handed a copy of the message with the same label and ordinal
+    /// that it has itself sent to that peer: a rushing peer that echoes the receiver's own round
+    /// message.  If the receiver's message is not on the wire yet, nothing is altered.
+    Reflect,
 }
 
 impl std::fmt::Debug for Mutation {
@@ -145,6 +149,7 @@ impl std::fmt::Debug for Mutation {
             Mutation::Fn(_) => write!(f, "Fn"),
             Mutation::Drop => write!(f, "Drop"),
             Mutation::Duplicate => write!(f, "Duplicate"),
+            Mutation::Reflect => write!(f, "Reflect"),
         }
     }
 }
@@ -355,6 +360,7 @@ impl Future for SendFut<'_> {
                         copies = 2;
                         (Some(data), None)
                     }
+                    Some(Mutation::Reflect) => (Some(data), None),
                 };
                 let t = net.tick();
                 if let Some(bytes) = bytes {
@@ -474,6 +480,15 @@ impl Future for RecvFut<'_> {
                         if let Some(nb) = f(&data) {
                             data = nb;
                             net.msgs[idx].seen = Some(Arc::new(data.clone()));
+                        }
+                    }
+                    Some(Mutation::Reflect) => {
+                        let from = this.from;
+                        if let Some(own) = net.msgs.iter().find(|m| m.from == me && m.to == from && m.label == label && m.ord == ord).map(|m| m.bytes.clone()) {
+                            data = (*own).clone();
+                            net.msgs[idx].seen = Some(own);
+                        } else if let Some(i) = net.faults.iter().position(|f| f.party == me && f.dir == Dir::Recv && f.peer == from && f.ord == ord && f.label == label) {
+                            net.faults_hit[i] = false;
                         }
                     }
                     _ => {}
